@@ -338,6 +338,18 @@ func CanonSet(v interface{}) string {
 	return Canon(v)
 }
 
+// CanonBag is Canon with to-many lists sorted but not de-duplicated.
+func CanonBag(v interface{}) string {
+	if ids, ok := v.([]string); ok {
+		c := append([]string{}, ids...)
+		sort.Strings(c)
+
+		return fmt.Sprintf("idbag:%q", c)
+	}
+
+	return Canon(v)
+}
+
 // Show renders a value for traces, keeping the pointer-ness visible.
 func Show(v interface{}) string {
 	if v == nil {
